@@ -70,7 +70,8 @@ RELATED = [("5 2 τ", "5 N 2 τ"), ("6 K", "6 N K"), ("6 b", "6 N b"), ("3 ɾ", 
 # doubling that neither the step clock nor the size guard at pop() can see
 # Ṅ (integer partitions) nests one lazy generator per unit of its argument: thousands of live generators whose
 # finalisation alone takes minutes
-EXCLUDED = {"Q", "¨U", "□", "¨…", "¢", "øV", "øo", "Ṅ", "øṖ"}
+# ∆P hands strings to sympy's polynomial solver, which can take a minute on a list of short words (seen: 62 s)
+EXCLUDED = {"Q", "¨U", "□", "¨…", "¢", "øV", "øo", "Ṅ", "øṖ", "∆P"}
 FN_POOL = ["λ›;", "λ2*;", "λ₂;", "λ2|+;", "λ:;", "λd;", "λ1;", "λ2|$;", "λN;", "λh;"]
 STRUCT_ELEMS = ["@f:1| 0 9 Ȧ ; @f;", "@g:a| ←a Ṙ ; @g;", "@h:1| : J ; @h;", "( i | ←i 1 J _ )", "ƛ›;", "ƛd;", "'₂;", "'1;", "µN;", "v›", "vd", "ƒ+", "ɖ+", "⁽›M", "⁽₂F", "( n )", "( n ⅛ )",
                 "ƛ:Ṙ;", "ƛ0 9 Ȧ;", "ƛ1 J;", "λ2|+; Ḟ", "⁽› ẇ", "‡›d M", "ƛn;", "~₂", "₌Lh", "₍ht",
@@ -275,6 +276,17 @@ class C10(core.Check):
                 events.append(["observe", rs.randint(0, 30)])
             else:
                 events.append(["close", rs.randint(0, 30)])
+        if pool_kind != "recipes" and rv.random() < 0.7:
+            # stratified over the element table: run i starts by applying element i mod |table| directly to the value under
+            # test (with generated literals for its other arguments), so that every element meets every shape and
+            # representation many times per tier instead of when the dice happen to pick it
+            e = self.keys[run % len(self.keys)]
+            ar = self.table[e]
+            lits = [self.gen_literal(rv) for _ in range(max(0, ar - 1))]
+            perm = ""
+            if ar >= 2 and lits and rv.random() < 0.3:
+                perm = "$ " if (ar == 2 or rv.random() < 0.5) else "∇ "
+            events.insert(0, ["apply", [(" ".join(lits) + " " if lits else "") + perm + e]])
         # interpreter settings that change how elements treat their arguments (command-line flags r, R, M)
         ctxflags = rw.choice([[], [], [], [], ["r"], ["R"], ["M"], ["r", "R"]])
         case = dict(value=val, repr=rep, nested_lazy=nested_lazy, place=place, events=events,
@@ -714,6 +726,13 @@ class C10(core.Check):
                             return k_ + sum(occurrences(x, depth + 1) for x in v)
                         return k_
                     held = sum(occurrences(v) for _, v in roots())
+                    # ... and every list the harness itself still holds a reference to (a value the program has dropped
+                    # is still "an argument the caller kept")
+                    for other in refs:
+                        if other is not r:
+                            items_ = other.obj.generated if isinstance(other.obj, LL) else other.obj
+                            if any(x is r.obj for x in list(items_)):
+                                held += 2
                     # closing the source of a value that something else still holds (an item of another list, a second
                     # root) would be the HARNESS changing a shared value, not a consumer abandoning its own
                     if known or shared or held > 1 or not hasattr(raw, "close") or r.born < 0:
